@@ -1023,3 +1023,111 @@ def c12(r):
         return True
     r.negctl("Trace_BaZi", ch[0], {"C12Birth": [(direction, "C12.direction"), (start, "C12.start."), (solar, "C12.start.solar"), (dayun, "C12.daYun.pillar"),
                                                  (liunian, "C12.liuNian"), (xiaoyun, "C12.xiaoYun"), (liuyue, "C12.liuYue"), (span, "C12.daYun.")]}, per_kind=1)
+
+
+# --------------------------------------------------------------- C11 / C18
+def _write_tables(r, equiv_names, fd_name):
+    import extract_exprs
+    ef = os.path.join(r.dir, "exprs.txt")
+    ff = os.path.join(r.dir, "fd.txt")
+    ex = extract_exprs.exprs_for(equiv_names) if equiv_names else []
+    write_lines(ef, ex)
+    fd = extract_exprs.fd_lines(fd_name)
+    write_lines(ff, fd)
+    if (equiv_names and len(ex) < 100) or len(fd) < 30:
+        raise Infra("extraction of the accessor tables from Almanac.tla failed (%d expressions, %d FD rows)" % (len(ex), len(fd)))
+    return ef, ff, ex, fd
+
+
+@plan("C11", "exploration")
+def c11(r):
+    thorough = r.tier == "thorough"
+    r.rule = ("Almanac.tla lists, by hand, %s pairs of accessor expressions that must agree (hour object vs the lunar date's hour accessors; "
+              "lunar-year object vs New-Year-based year accessors; deprecated aliases; default vs documented school; eight-character pillars vs the "
+              "lunar date's exact pillars selected by the day-boundary convention; deprecated arrays) and 37 eight-character attributes with their "
+              "defining pillars. The driver evaluates exactly those expressions on %s moments x 2 conventions (boundary heavy: Jie instants +-1 s, "
+              "both solstice days, 20-31 December, 23:00-23:59, 00:00-00:59, 12 boundary years) and TLC compares each pair; observations are grouped "
+              "by (attribute, defining inputs) over the run and TLC requires one value per group. Distinct non-trivial case = distinct (moment, convention)." )
+    r.build()
+    ef, ff, ex, fd = _write_tables(r, ["Equiv", "SectEquiv", "BaZiArrays"], "FD11")
+    r.rule = r.rule % (len(ex) // 2, "40 000" if thorough else "4 000")
+    ch = r.drive("c11moments", shards=4, args={"exprs": ef, "fd": ff, "moments": 40000 if thorough else 4000, "prop": "C11"}, maxlines=600)
+    r.validate("Trace_Routes", ch)
+    r.sample_from(ch[:1])
+    r.cov["samples"] = [s[:500] for s in r.cov["samples"]]
+    n = g = 0
+    for c in ch:
+        for line in open(c, encoding="utf-8"):
+            e = json.loads(line)
+            if e["ev"] == "C11Moment": n += 1
+            else: g += len(e["g"])
+    r.cov["moments_x_conventions"] = n
+    r.cov["fd_groups"] = g
+    r.cov["pairs_compared_per_moment"] = len(ex) // 2
+    r.cov["distinct_nontrivial"] = n
+    r.cov["mc_runs"].append({"note": "no state space: the specification contributes the pairing / dependence tables and the verdict"})
+    def mv(expr):
+        def f(e):
+            if e["p"] != 0 or expr not in e["v"]: return False
+            e["v"][expr] = e["v"][expr] + "x"
+            return True
+        return f
+    def fdm(e):
+        e["g"][0]["vals"] = e["g"][0]["vals"] + ["zz"]
+        return True
+    r.negctl("Trace_Routes", ch[0], {"C11Moment": [(mv("LunarTime.GetNineStar"), "C11.equiv"), (mv("Lunar.GetSha"), "C11.equiv"), (mv("EightChar.GetDayXun"), "C11.equiv.by-day"),
+                                                    (mv("Lunar.GetBaZi"), "C11.equiv.deprecated-array"), (mv("LunarYear.GetNineStar"), "C11.equiv")]})
+    r.negctl("Trace_Routes", ch[-1], {"FDGroups": [(fdm, "C11.functional-dependence")]}, per_kind=1)
+
+
+@plan("C18", "exploration")
+def c18(r):
+    thorough = r.tier == "thorough"
+    r.rule = ("Almanac.tla lists, by hand, %d almanac attributes of the lunar date and the hour object with their defining inputs (day / hour stem, "
+              "branch, stem-branch pair, month and day branches, month and day pillars, lunar month and day pillar, lunar month and day, mansion). "
+              "The driver evaluates them on %s moments x 2 conventions, groups the observations by (attribute, defining inputs) and TLC requires one "
+              "value per group (%s groups with two or more observations). The four classical laws are evaluated by TLC on every day of %s: the 28 "
+              "mansions advance one per day in their fixed order in step with the weekday, the duty god is 'establish' when day and month branches "
+              "coincide, the clash branch is six places away, the two pillars of each nayin pair share one element. Distinct non-trivial case = distinct group or day.")
+    r.assumptions += ["a table that is consistently wrong for a key is still a function of that key: functional dependence cannot see it (only the four laws pin values)"]
+    r.build()
+    ef, ff, ex, fd = _write_tables(r, None, "FD18")
+    ch = r.drive("c11moments", shards=4, args={"fd": ff, "moments": 40000 if thorough else 5000, "prop": "C18", "nomoments": 1}, maxlines=600, label="c18fd")
+    r.validate("Trace_Routes", ch)
+    chl = r.drive("c18laws", args={"years": 60}, maxlines=30)
+    r.validate("Trace_Routes", chl)
+    r.sample_from(ch[:1] + chl[-1:])
+    r.cov["samples"] = [s[:500] for s in r.cov["samples"]]
+    g = multi = days = 0
+    for c in ch:
+        for line in open(c, encoding="utf-8"):
+            e = json.loads(line)
+            if e["ev"] == "FDGroups":
+                g += len(e["g"])
+    for c in chl:
+        for line in open(c, encoding="utf-8"):
+            e = json.loads(line)
+            days += len(e.get("rows", []))
+    r.rule = r.rule % (len(fd), "40 000" if thorough else "5 000", g, "every civil year" if thorough else "60 seeded + 7 boundary years")
+    r.cov["fd_groups"] = g
+    r.cov["days"] = days
+    r.cov["distinct_nontrivial"] = g + days
+    r.cov["mc_runs"].append({"note": "no state space: the specification contributes the dependence table, the laws and the verdict"})
+    def fdm(e):
+        e["g"][0]["vals"] = e["g"][0]["vals"] + ["zz"]
+        return True
+    r.negctl("Trace_Routes", ch[-1], {"FDGroups": [(fdm, "C18.functional-dependence")]}, per_kind=1)
+    def xiu(e):
+        e["rows"][10][3] = e["rows"][9][3]
+        return True
+    def zx(e):
+        e["rows"][20][7] = "建" if e["rows"][20][7] != "建" else "除"
+        return True
+    def chong(e):
+        e["rows"][30][8] = "子" if e["rows"][30][8] != "子" else "丑"
+        return True
+    def ny(e):
+        e["t"][4][2] = e["t"][6][2]
+        return True
+    r.negctl("Trace_Routes", chl[1:4], {"C18Laws": [(xiu, "C18.xiu."), (zx, "C18.zhiXing"), (chong, "C18.chong")]}, per_kind=1)
+    r.negctl("Trace_Routes", chl[0], {"C18NaYin": [(ny, "C18.naYin.pairs-share")]}, per_kind=1)
